@@ -80,6 +80,25 @@ class FramePool:
             return tuple(e for d in item for e in d["coords"])
         return tuple(e for c in item if c is not None for e in c)
 
+    @classmethod
+    def blocks_of(cls, item):
+        """Coordinate tuples of the sub-cube(s) an item handed to the pool stands for: one sub-cube descriptor (a tuple of
+        {"coords", "data"} dicts / a tuple of None-or-coordinate-tuples) or a list of them (a batch); None when the item is neither."""
+        def is_desc(x):
+            if not isinstance(x, tuple):
+                return False
+            if all(isinstance(d, dict) and "coords" in d for d in x):
+                return True
+            return all(c is None or (isinstance(c, tuple) and all(isinstance(e, (int, np.integer)) for e in c)) for c in x)
+        try:
+            if is_desc(item):
+                return [cls.coords_of(item)]
+            if isinstance(item, (list, tuple)) and len(item) and all(is_desc(x) for x in item):
+                return [cls.coords_of(x) for x in item]
+        except Exception:  # noqa
+            pass
+        return None
+
     @staticmethod
     def task_context(fn):
         """What the task function can reach: closure cells, functools.partial arguments, a bound self - identified by
@@ -93,17 +112,22 @@ class FramePool:
             f = f.func
         if getattr(f, "__self__", None) is not None:
             vals.append(f.__self__)
-        if getattr(f, "__closure__", None):
-            for c in f.__closure__:
+        def from_closure(g, depth):
+            for c in getattr(g, "__closure__", None) or ():
                 try:
-                    vals.append(c.cell_contents)
+                    v = c.cell_contents
                 except ValueError:
-                    pass
+                    continue
+                vals.append(v)
+                if depth < 3 and callable(v) and getattr(v, "__closure__", None):
+                    from_closure(v, depth + 1)  # a task function that calls another closure (e.g. a batch runner)
+
+        from_closure(f, 0)
         is_regs = lambda v: isinstance(v, (list, tuple)) and len(v) > 0 and all(  # noqa
             isinstance(r, (list, tuple)) and len(r) > 0 and all(isinstance(a, np.ndarray) for a in r) for r in v)
         is_funcs = lambda v: isinstance(v, (list, tuple)) and len(v) > 0 and all(hasattr(x, "get_initial_regions") for x in v)  # noqa
         is_cube = lambda v: hasattr(v, "calculate") and hasattr(v, "dims")  # noqa
-        out = {}
+        out = {"arrays": [("closure/argument array #%d" % i, v) for i, v in enumerate(vals) if isinstance(v, np.ndarray) and v.size]}
         for v in vals:
             if "results" not in out and is_regs(v):
                 out["results"] = v
@@ -121,7 +145,9 @@ class FramePool:
             FramePool.log.append({"tasks": 0, "violations": [], "regions": 0, "coords": [], "stale": None, "chunksize": chunksize})
             return [None] * len(items)
         cells = self.task_context(fn)
-        rec = {"tasks": len(items), "violations": [], "regions": 0, "coords": [self.coords_of(x) for x in items], "stale": None}
+        blocks = [self.blocks_of(x) for x in items]
+        known = all(b is not None for b in blocks)
+        rec = {"tasks": len(items), "violations": [], "regions": 0, "coords": [co for b in blocks for co in b] if known else None, "stale": None}
         FramePool.log.append(rec)
         if "results" not in cells:
             # the monitor cannot find the shared regions: it does not bind (stale); tasks still run in reverse order
@@ -132,44 +158,65 @@ class FramePool:
         regions = [r for regs in cells["results"] for r in regs]
         rec["regions"] = len(regions)
         owners = [cells.get("self")] + list(cells.get("funcs", []))
+        shared = [(n, a) for n, a in cells.get("arrays", []) if not any(a is r or np.shares_memory(a, r) for r in regions)]
         base = [r.copy() for r in regions]
         pois = [poison(b) for b in base]
-        coords = [self.coords_of(x) for x in items]
-        nd_scaffold = len(coords[0]) if coords else 0
-        if len(set(coords)) != len(coords) or any(len(c) != nd_scaffold or any(not isinstance(e, (int, np.integer)) for e in c) for c in coords):
-            rec["violations"].append(("O2", None, "task block coordinates are not distinct full-length integer tuples: %r" % (coords,)))
+        if known:
+            coords = [co for b in blocks for co in b]
+            nd_scaffold = len(coords[0]) if coords else 0
+            if len(set(coords)) != len(coords) or any(len(c) != nd_scaffold or any(not isinstance(e, (int, np.integer)) for e in c) for c in coords):
+                rec["violations"].append(("O2", None, "task block coordinates are not distinct full-length integer tuples: %r" % (coords,)))
 
         def setall(src):
             for r, s in zip(regions, src):
                 r[...] = s
 
-        for item, co in zip(items, coords):
-            outs = []
+        written_by = [np.zeros(b.shape, dtype=np.int32) for b in base]  # how many tasks write each cell
+        for item, blk in zip(items, blocks):
             before_attrs = [attr_state(o) for o in owners if o is not None]
-            for mode in ("base", "all", "outside"):
-                if mode == "base":
-                    setall(base)
-                elif mode == "all":
-                    setall(pois)
-                else:
-                    setall(pois)
-                    for r, b in zip(regions, base):
-                        r[co] = b[co]
-                fn(item)
-                outs.append([r.copy() for r in regions])
+            before_shared = [a.copy() for _, a in shared]
+            setall(base)
+            fn(item)
+            oa = [r.copy() for r in regions]
+            setall(pois)
+            fn(item)
+            ob = [r.copy() for r in regions]
+            # the cells this task writes: seen against at least one of two backgrounds that differ everywhere
+            wrote = [~(same(a_, b_) & same(o_, p_)) for a_, b_, o_, p_ in zip(oa, base, ob, pois)]
+            if blk is not None:
+                own = []
+                for b_ in base:
+                    m = np.zeros(b_.shape, bool)
+                    for co in blk:
+                        m[co] = True
+                    own.append(m)
+                for k, (w, m) in enumerate(zip(wrote, own)):
+                    if (w & ~m).any():
+                        rec["violations"].append(("O1", blk, "region %d: a cell outside the block(s) %r of the task was written" % (k, blk)))
+            else:
+                own = wrote  # tasks that are not recognisable sub-cube descriptors: their frame is what they are observed to write
+            for k, m in enumerate(own):
+                written_by[k] += (wrote[k] | m) if blk is not None else wrote[k]
+            # own cells must not depend on the content of the other cells
+            setall(pois)
+            for r, b_, m in zip(regions, base, own):
+                r[m] = b_[m]
+            fn(item)
+            oc = [r.copy() for r in regions]
+            for k, m in enumerate(own):
+                if not same(oa[k][m], oc[k][m]).all():
+                    rec["violations"].append(("O3", blk, "region %d: the cells the task writes depend on the content of other cells" % k))
             after_attrs = [attr_state(o) for o in owners if o is not None]
             if before_attrs != after_attrs:
                 changed = [k for b, a in zip(before_attrs, after_attrs) for k in set(b) | set(a) if b.get(k) != a.get(k)]
-                rec["violations"].append(("O4", co, "attributes changed across a task: %r" % sorted(set(changed))))
-            for k, (b, p) in enumerate(zip(base, pois)):
-                oa, ob, oc = outs[0][k], outs[1][k], outs[2][k]
-                untouched = same(oa, b) & same(ob, p)
-                mask = np.ones(b.shape, bool)
-                mask[co] = False  # True outside the task's own block
-                if not untouched[mask].all():
-                    rec["violations"].append(("O1", co, "region %d: a cell outside block %r was written" % (k, co)))
-                if not same(oa[co], oc[co]).all():
-                    rec["violations"].append(("O3", co, "region %d: block %r depends on the content of other blocks" % (k, co)))
+                rec["violations"].append(("O4", blk, "attributes changed across a task: %r" % sorted(set(changed))))
+            for (n, a), b4 in zip(shared, before_shared):
+                if a.shape != b4.shape or not same(a, b4).all():
+                    rec["violations"].append(("O4", blk, "an array shared by all tasks through the task function (%s, shape %r) is written by the task" % (n, a.shape)))
+        if True:
+            for k, cnt in enumerate(written_by):
+                if (cnt > 1).any():
+                    rec["violations"].append(("O2", None, "region %d: %d cell(s) are written by more than one task" % (k, int((cnt > 1).sum()))))
         setall(base)
         for item in reversed(items):
             fn(item)
